@@ -175,6 +175,93 @@ def _start_stepG(bundle, keepf, startiv, stepA, stepG, glen, key_in_state=True):
     return prep
 
 
+def _start_key_in_state(bundle):
+    """belt.h: 'key and state may overlap' (remark of every belt*Start): Start with the key stored inside the state region, then one
+    use of the state; the result must be that of a state initialised from a separate key buffer"""
+    def prep(x, c):
+        kl = klen_of(c)
+        L = c["L"]
+        n = {"WBL": 32 + L % 60, "ECB": 16 + L % 50, "CBC": 16 + L % 50, "CFB": L % 60, "CTR": L % 60, "DWP": L % 60, "CHE": L % 60,
+             "BDE": 16 * (1 + L % 4), "SDE": 16 * (2 + L % 4), "FMT": 2 + L % 20, "KRP": 0}[bundle]
+        ins = {"key": expand(c["seed"] + "k", kl)}
+        iv = expand(c["seed"] + "i", 16)
+        if bundle == "FMT":
+            mod = [10, 256, 1000, 65536][c["L2"] % 4]
+            raw = expand(c["seed"], 2 * n)
+            data = b"".join((int.from_bytes(raw[2 * j:2 * j + 2], "little") % mod).to_bytes(2, "little") for j in range(n))
+            keep = x.call("beltFMT_keep", mod, n, ret="z")
+        else:
+            data = expand(c["seed"], n)
+            keep = x.call("belt%s_keep" % bundle, ret="z")
+        outs = {"state": keep}
+
+        def call(B):
+            st, key = B["state"], B["key"]
+            IV, D = x.buf(iv), x.buf(data)
+            if bundle == "KRP":
+                m = [16, 24, 32][c["L2"] % 3]
+                m = m if m <= kl else 16
+                return ("__seq__", [("beltKRPStart", [st, key, kl, x.buf(expand(c["seed"] + "l", 12))], "v"),
+                                    ("beltKRPStepG", [B["res"], m, x.buf(expand(c["seed"] + "h", 16)), st], "v")], "v")
+            if bundle == "FMT":
+                return ("__seq__", [("beltFMTStart", [st, mod, n, key, kl], "v"), ("memCopy", [B["res"], D, 2 * n], "v"), ("beltFMTStepE", [B["res"], IV, st], "v")], "v")
+            if bundle in ("DWP", "CHE"):
+                A = x.buf(expand(c["seed"] + "a", 5 + L % 30))
+                return ("__seq__", [("belt%sStart" % bundle, [st, key, kl, IV], "v"), ("belt%sStepI" % bundle, [A, 5 + L % 30, st], "v"),
+                                    ("memCopy", [B["res"], D, n], "v"), ("belt%sStepE" % bundle, [B["res"], n, st], "v"),
+                                    ("belt%sStepA" % bundle, [B["res"], n, st], "v"), ("belt%sStepG" % bundle, [B["res"].at(n), st], "v")], "v")
+            start = [st, key, kl] + ([IV] if bundle in ("CBC", "CFB", "CTR", "BDE") else [])
+            step = [B["res"], n] + ([IV] if bundle == "SDE" else []) + [st]
+            return ("__seq__", [("belt%sStart" % bundle, start, "v"), ("memCopy", [B["res"], D, n], "v"), ("belt%sStepE" % bundle, step, "v")], "v")
+        outs["res"] = {"KRP": 32, "FMT": 2 * n, "DWP": n + 8, "CHE": n + 8}.get(bundle, n)
+        if bundle == "KRP":
+            outs["res"] = [16, 24, 32][c["L2"] % 3] if [16, 24, 32][c["L2"] % 3] <= kl else 16
+        return dict(ins=ins, outs=outs, call=call, only_anchor={"state": ["key"], "res": ["__none__"]}, check=["res"], gap=PAD, align=8)
+    return prep
+
+
+def _stepG_in_state(kind):
+    """'hash / mac and state may overlap' (when the state is not used afterwards): the final value written into the state region"""
+    def prep(x, c):
+        L = c["L"] * 2
+        kl = klen_of(c)
+        data = expand(c["seed"], L)
+        if kind == "bashHashStepG":
+            lvl = 16 * (1 + c["L2"] % 16)
+            keep, glen = x.call("bashHash_keep", ret="z"), 1 + c["k"] % (lvl // 4)
+            seq = lambda B: [("bashHashStart", [B["state"], lvl], "v"), ("bashHashStepH", [x.buf(data), L, B["state"]], "v"), ("bashHashStepG", [B["mac"], glen, B["state"]], "v")]
+        elif kind in ("beltHashStepG", "beltHashStepG2"):
+            keep, glen = x.call("beltHash_keep", ret="z"), 32 if kind == "beltHashStepG" else 1 + c["k"] % 32
+            fin = (lambda B: ("beltHashStepG", [B["mac"], B["state"]], "v")) if kind == "beltHashStepG" else (lambda B: ("beltHashStepG2", [B["mac"], glen, B["state"]], "v"))
+            seq = lambda B: [("beltHashStart", [B["state"]], "v"), ("beltHashStepH", [x.buf(data), L, B["state"]], "v"), fin(B)]
+        elif kind == "beltMACStepG2":
+            keep, glen = x.call("beltMAC_keep", ret="z"), 1 + c["k"] % 8
+            seq = lambda B: [("beltMACStart", [B["state"], x.buf(expand(c["seed"] + "k", kl)), kl], "v"), ("beltMACStepA", [x.buf(data), L, B["state"]], "v"), ("beltMACStepG2", [B["mac"], glen, B["state"]], "v")]
+        else:       # beltHMACStepG2
+            keep, glen = x.call("beltHMAC_keep", ret="z"), 1 + c["k"] % 32
+            seq = lambda B: [("beltHMACStart", [B["state"], x.buf(expand(c["seed"] + "k", 20 + kl)), 20 + kl], "v"), ("beltHMACStepA", [x.buf(data), L, B["state"]], "v"), ("beltHMACStepG2", [B["mac"], glen, B["state"]], "v")]
+        return dict(ins={"pad": b"\x11" * 8}, outs={"state": keep, "mac": glen}, call=lambda B: ("__seq__", seq(B), "v"),
+                    only_anchor={"state": ["__none__"], "mac": ["state"]}, check=["mac"], gap=PAD)
+    return prep
+
+
+def _dstu_point(which):
+    """dstu.h: the buffers point and xpoint may overlap (dstuPointCompress / dstuPointRecover) - curve 163pb with its appendix base point"""
+    def prep(x, c):
+        import pyref.dstu as RD
+        M = RD.PARAMS[RD._PFX + "0"]
+        no = (M.p[0] + 7) // 8
+        k = 1 + int.from_bytes(expand(c["seed"], 8), "little") % 1000
+        pt = RD.point_enc(M, RD.ec_mul(M, k, M.P))
+        prm = x.out(x.call("x_c16_sizeof", 2, ret="z"))
+        x.call("dstuParamsStd", prm, x.buf(M.name.encode() + b"\0"))
+        if which == "compress":
+            return dict(ins={"point": pt}, outs={"xpoint": no}, call=lambda B: ("dstuPointCompress", [B["xpoint"], prm, B["point"]], "i"))
+        xp = RD.point_compress(M, RD.point_dec(M, pt))
+        return dict(ins={"xpoint": xp}, outs={"point": 2 * no}, call=lambda B: ("dstuPointRecover", [B["point"], prm, B["xpoint"]], "i"))
+    return prep
+
+
 FUNCS = {
     "beltCBCEncr": _ciph("beltCBCEncr", True, 16, False), "beltCBCDecr": _ciph("beltCBCDecr", True, 16, False),
     "beltCFBEncr": _ciph("beltCFBEncr", True, 0, False), "beltCFBDecr": _ciph("beltCFBDecr", True, 0, False),
@@ -186,6 +273,9 @@ FUNCS = {
     "beltFMTEncr": _fmt("beltFMTEncr"), "beltFMTDecr": _fmt("beltFMTDecr"),
     "beltKeyExpand": _keyexpand("beltKeyExpand", 1), "beltKeyExpand2": _keyexpand("beltKeyExpand2", 4),
     "memMove": _memmove, "memJoin": _memjoin, "derEnc": _derenc,
+    **{"%sStartKey" % b: _start_key_in_state(b) for b in ("WBL", "ECB", "CBC", "CFB", "CTR", "DWP", "CHE", "BDE", "SDE", "FMT", "KRP")},
+    **{k: _stepG_in_state(k) for k in ("bashHashStepG", "beltHashStepG", "beltHashStepG2", "beltMACStepG2", "beltHMACStepG2")},
+    "dstuPointCompress": _dstu_point("compress"), "dstuPointRecover": _dstu_point("recover"),
     "MACStartG": _start_stepG("MAC", "beltMAC_keep", False, "beltMACStepA", "beltMACStepG", 8),
     "HMACStartG": _start_stepG("HMAC", "beltHMAC_keep", False, "beltHMACStepA", "beltHMACStepG", 32, key_in_state=False),   # beltHMACStart has no overlap remark
 }
